@@ -2,18 +2,25 @@
 Model of the remodeling pipeline (property C17):
   hed/tools/remodeling/dispatcher.py          Dispatcher.run_operations / prep_data / post_proc_data / parse_operations
   hed/tools/remodeling/remodeler_validator.py RemodelerValidator.validate
-  hed/tools/remodeling/operations/*_op.py     __init__ / do_op / validate_input_data of
-        remove_rows, remove_columns, rename_columns, reorder_columns, factor_column, merge_consecutive
+  hed/tools/remodeling/operations/*_op.py     __init__ / do_op / validate_input_data of all eight non-summary
+        operations: remove_rows, remove_columns, rename_columns, reorder_columns, factor_column,
+        merge_consecutive (with and without set_durations), remap_columns, split_rows
+  hed/tools/analysis/key_map.py               KeyMap.update / _update / _handle_update / remap / _remap / remove_quotes
   hed/tools/remodeling/cli/run_remodel.py     parse_arguments (validate, refuse) then one Dispatcher per task
 
-The model is of the code WITH the repairs fixes/C17_*.diff (reorder_columns copies its list; factor_column and
-merge_consecutive default their optional parameters to []).  The unrepaired `reorder_columns.do_op` is kept as
-`reorderImplOld` for the regression counter-examples in Props/C17.lean.
+The model is of the code as committed in /repo (with the nine C17 repairs).  The unrepaired
+`reorder_columns.do_op` is kept as `reorderImplOld` for the regression counter-examples in Props/C17.lean.
 
 pandas conventions (DESIGN.md section 3): a table is a list of named columns; a cell is what pandas holds after
-`read_csv(..., keep_default_na=False)`: a `str`, an `int64`, a `float64` (carried as its Python `repr`), or NaN.
-Only the pandas operations the anchored code uses are modelled; pandas semantics for duplicate column labels
-are NOT modelled (`OpErr.unmodelled`, see `runWith`).  No Mathlib: this file is linked into the native driver.
+`read_csv(..., keep_default_na=False)`: a `str`, an `int64`, a `float64`, or NaN.  Floats are exact numbers on
+the 1/2 grid (`flt h` is h/2): onsets, durations and the numeric parameters of the generated operations live
+there, sums and differences stay there, and Python prints them as `k.0` / `k.5`.
+Only the pandas operations the anchored code uses are modelled, among them the three places where pandas turns
+int64 values into float64 ones (a float or NaN entering the column, `iterrows` over all-numeric rows, `.values`
+of all-numeric columns).  NOT modelled (`OpErr.unmodelled`): duplicate column labels; text cells in the time
+columns that split_rows / merge_consecutive(set_durations) compute with; exotic integer literals in
+integer_sources; Python's hash collisions (a KeyMap key is the tuple of texts itself).
+No Mathlib: this file is linked into the native driver.
 -/
 import HedVerif.Generated.C17Params
 namespace HedVerif.Remodel
@@ -23,7 +30,7 @@ namespace HedVerif.Remodel
 inductive Cell
   | str (s : Str)
   | int (n : Int)
-  | flt (repr : Str)      -- a float64, as Python prints it ("1.0", "0.5")
+  | flt (twice : Int)     -- the float64 twice/2 (1/2 grid)
   | nan
 deriving Repr, DecidableEq, Inhabited
 
@@ -39,16 +46,21 @@ deriving Repr, DecidableEq
 
 inductive OpErr
   | raised (e : PyExc)
-  | unmodelled            -- the table has duplicate column labels: outside the modelled pandas fragment
+  | unmodelled            -- outside the modelled pandas fragment (see the file comment)
 deriving Repr, DecidableEq
 
 def intRepr (n : Int) : Str := (toString n).toList
 
-/-- `str(x)` of a pandas cell (`Series.map(str)`, `str(column_value)`) -/
+/-- Python's `repr` of the float h/2 -/
+def fltRepr (h : Int) : Str :=
+  (if h < 0 then ['-'] else []) ++ (toString (h.natAbs / 2)).toList
+    ++ (if h.natAbs % 2 = 0 then ".0".toList else ".5".toList)
+
+/-- `str(x)` of a pandas cell (`Series.map(str)`, `str(column_value)`, `astype(str)`) -/
 def pyStr : Cell → Str
   | .str s => s
   | .int n => intRepr n
-  | .flt r => r
+  | .flt h => fltRepr h
   | .nan => "nan".toList
 
 /-- elementwise `series == value` for a JSON scalar `value` (str dtype against a number and numeric dtype
@@ -56,8 +68,8 @@ against a string are all-False; NaN equals nothing; `1 == 1.0`) -/
 def cellEq : Cell → Val → Bool
   | .str a, .str b => a == b
   | .int a, .int b => a == b
-  | .int a, .flt r => intRepr a ++ ".0".toList == r
-  | .flt r, .int b => r == intRepr b ++ ".0".toList
+  | .int a, .flt h => 2 * a == h
+  | .flt h, .int b => h == 2 * b
   | .flt a, .flt b => a == b
   | _, _ => false
 
@@ -98,11 +110,44 @@ def selectCols : List Str → Table → Except OpErr Table
     | none, _ => .error (.raised .KeyError)
     | _, .error e => .error e
 
+/-! ## Numbers in the time columns (exact on the 1/2 grid) -/
+
+def Cell.isInt : Cell → Bool | .int _ => true | _ => false
+def Cell.isFlt : Cell → Bool | .flt _ => true | _ => false
+def Cell.isStr : Cell → Bool | .str _ => true | _ => false
+def Cell.isNumVal : Cell → Bool | .int _ => true | .flt _ => true | _ => false
+/-- twice the numeric value; `none` for NaN (text is excluded by the callers) -/
+def Cell.tw : Cell → Option Int
+  | .int n => some (2 * n) | .flt h => some h | _ => none
+/-- what an int64 value becomes when its column becomes float64 -/
+def toFloat : Cell → Cell | .int n => .flt (2 * n) | c => c
+/-- a column pandas holds with a numeric dtype (or an object column of numbers and NaN): no text -/
+def numericCol (c : Column) : Bool := !c.any Cell.isStr
+/-- `pd.to_numeric(column, errors='coerce')` on a column without text: int64 stays, else float64 -/
+def toNumericCol (c : Column) : Column := if c.all Cell.isInt then c else c.map toFloat
+/-- elementwise `+` of int64 / float64 values (NaN propagates) -/
+def numAdd : Cell → Cell → Cell
+  | .int x, .int y => .int (x + y)
+  | a, b => match a.tw, b.tw with
+    | some x, some y => .flt (x + y)
+    | _, _ => .nan
+
+def onsetName : Str := "onset".toList
+def durationName : Str := "duration".toList
+
 /-! ## Operations: parameters are the state
 
 An operation object keeps *references* to the values of its parameter dictionary (`self.column_order =
 parameters['column_order']`), so the parameter dictionary is the operation's mutable state: `opImpl` returns the
-parameters after the call next to the result. -/
+parameters after the call next to the result.  (remap_columns also builds a KeyMap in `__init__`; it is a
+function of the parameters and never written afterwards, so the model recomputes it: `buildKeyMap`.) -/
+
+/-- one entry of split_rows' `new_events` -/
+structure SplitEvent where
+  onsetSrc : List Val
+  duration : List Val
+  copy : Option (List Str)
+deriving Repr, DecidableEq
 
 inductive Op
   | removeRows (col : Str) (vals : List Val)
@@ -110,8 +155,10 @@ inductive Op
   | renameColumns (mapping : List (Str × Str)) (ignoreMissing : Bool)
   | reorderColumns (order : List Str) (ignoreMissing keepOthers : Bool)
   | factorColumn (col : Str) (values names : Option (List Str))
-  /-- `set_durations = false` only (the duration arithmetic is not modelled) -/
-  | mergeConsecutive (col : Str) (code : Val) (matchCols : Option (List Str)) (ignoreMissing : Bool)
+  | mergeConsecutive (col : Str) (code : Val) (matchCols : Option (List Str)) (setDurations ignoreMissing : Bool)
+  | remapColumns (src dst : List Str) (mapList : List (List Val)) (ignoreMissing : Bool)
+      (intSrc : Option (List Str))
+  | splitRows (anchor : Str) (events : List (Str × SplitEvent)) (removeParent : Bool)
 deriving Repr, DecidableEq
 
 /-! ### remove_rows -/
@@ -222,7 +269,8 @@ def factorSpec (col : Str) (values names : Option (List Str)) (t : Table) : Exce
     if fn.length < fv.length then .error (.raised .IndexError)
     else .ok ((fv.zip fn).foldl (fun t' vn => setCol t' vn.2 (factorCol c0 vn.1)) t)
 
-/-! ### merge_consecutive (`set_durations = false`) -/
+
+/-! ### merge_consecutive -/
 
 abbrev Row := List (Option Cell)
 
@@ -253,10 +301,95 @@ def matchRows (t : Table) (names : List Str) (n : Nat) : List Row :=
   let cols := names.filterMap (t.lookup ·)
   (List.range n).map fun i => cols.map (·[i]?)
 
-def mergeCore (keepMask : List (Bool × Row) → List Bool)
-    (col : Str) (code : Val) (matchCols : Option (List Str)) (ign : Bool) (t : Table) : Except OpErr Table :=
+/-- `df.loc[row, ["onset", "duration"]].sum(skipna=True)`, twice the value (NaN counts as 0) -/
+def endTw (o d : Cell) : Int := o.tw.getD 0 + d.tw.getD 0
+
+def maxList : List Int → Option Int
+  | [] => none
+  | x :: xs => some (match maxList xs with | some m => max x m | none => x)
+
+/-- the anchor row's new duration: `max(max_group, max_anchor) - onset` (float64) -/
+def anchorDur (o d : Cell) (maxGroup : Int) : Cell :=
+  match o.tw with
+  | some ot => .flt (max maxGroup (endTw o d) - ot)
+  | none => .nan
+
+/-- a row as `_update_durations` sees it: its remove-group number, its onset, its (current) duration -/
+abbrev DRow := Nat × Cell × Cell
+
+/-- `df_group.sum(axis=1, skipna=True).max()` over the rows whose group number is `g` -/
+def groupMax (g : Nat) (rs : List DRow) : Option Int :=
+  maxList ((rs.filter (·.1 == g)).map fun r => endTw r.2.1 r.2.2)
+
+/-- the row just before the first row of group `g` (`anchor = df_group.index[0] - 1`) gets the new duration -/
+def updateGroupAux (g : Nat) : List DRow → List DRow
+  | a :: b :: rest =>
+    if b.1 == g then
+      match groupMax g (b :: rest) with
+      | some mg => (a.1, a.2.1, anchorDur a.2.1 a.2.2 mg) :: b :: rest
+      | none => a :: b :: rest
+    else a :: updateGroupAux g (b :: rest)
+  | rs => rs
+
+/-- one pass of `for index in range(max_groups)` in `_update_durations`, for group number `g`
+(no row of the group: `continue`; the group starts in the first row: `df_new.loc[-1]` is a KeyError — proved
+unreachable) -/
+def updateGroup (g : Nat) (rs : List DRow) : Except OpErr (List DRow) :=
+  match rs with
+  | r :: _ => if r.1 == g then .error (.raised .KeyError) else .ok (updateGroupAux g rs)
+  | [] => .ok []
+
+def updateLoop : List Nat → List DRow → Except OpErr (List DRow)
+  | [], rs => .ok rs
+  | g :: gs, rs =>
+    match updateGroup g rs with
+    | .ok rs' => updateLoop gs rs'
+    | .error e => .error e
+
+/-- what `do_op` derives from the compared rows: which rows stay, and (set_durations) the duration column -/
+structure MergePlan where
+  keep : List Bool
+  newDur : Column → Column → Except OpErr (Option Column)     -- onset, duration ↦ new duration (none: untouched)
+
+/-- `_get_remove_groups`, then `if max(remove_groups) > 0: _update_durations` (duration column as float) -/
+def mergePlanImpl (mrs : List (Bool × Row)) : MergePlan :=
+  let groups := removeGroups mrs
+  let mx := groups.foldl max 0
+  { keep := groups.map (· == 0),
+    newDur := fun O D =>
+      if mx > 0 then
+        match updateLoop (List.range' 1 mx) (groups.zip (O.zip (D.map toFloat))) with
+        | .ok rs => .ok (some (rs.map (·.2.2)))
+        | .error e => .error e
+      else .ok none }
+
+/-- largest end (twice) among the dropped rows at the head of the list; `none` if there is none -/
+def runEnd : List (Bool × Cell × Cell) → Option Int
+  | (false, o, d) :: rest =>
+    some (match runEnd rest with | some m => max (endTw o d) m | none => endTw o d)
+  | _ => none
+
+/-- documented meaning of set_durations: a kept row that absorbs the rows after it lasts until the latest end
+of itself and the absorbed rows; the column is float64 -/
+def specDur : List (Bool × Cell × Cell) → Column
+  | [] => []
+  | (k, o, d) :: rest =>
+    (match k, runEnd rest with
+     | true, some m => anchorDur o (toFloat d) m
+     | _, _ => toFloat d) :: specDur rest
+
+def mergePlanSpec (mrs : List (Bool × Row)) : MergePlan :=
+  let keep := mergeKeep none mrs
+  { keep := keep,
+    newDur := fun O D => if keep.any (!·) then .ok (some (specDur (keep.zip (O.zip D)))) else .ok none }
+
+def mergeCore (plan : List (Bool × Row) → MergePlan)
+    (col : Str) (code : Val) (matchCols : Option (List Str)) (setDur ign : Bool) (t : Table) :
+    Except OpErr Table :=
   let mcs := matchCols.getD []
   if !ign && !(header t).contains col then .error (.raised .ValueError) else
+  if setDur && !(header t).contains onsetName then .error (.raised .ValueError) else
+  if setDur && !(header t).contains durationName then .error (.raised .ValueError) else
   let missing := mcs.filter fun e => !(header t).contains e
   if !mcs.isEmpty && !ign && !missing.isEmpty then .error (.raised .ValueError) else
   let mc := (mcs.filter fun e => (header t).contains e).eraseDups  -- list(set(match) ∩ set(columns))
@@ -265,12 +398,313 @@ def mergeCore (keepMask : List (Bool × Row) → List Bool)
   | some c =>
     let mask := c.map (cellEq · code)
     if !mask.any id then .ok t else
-    .ok (filterRows (keepMask (mask.zip (matchRows t (mc ++ [col]) c.length))) t)
+    let p := plan (mask.zip (matchRows t (mc ++ [col]) c.length))
+    if !setDur then .ok (filterRows p.keep t) else
+    let O := (t.lookup onsetName).getD []
+    let D := (t.lookup durationName).getD []
+    match p.newDur O D with
+    | .ok none => .ok (filterRows p.keep t)
+    | r =>
+      if !numericCol O || !numericCol D then .error .unmodelled else
+      match r with
+      | .ok (some D') => .ok (filterRows p.keep (setCol t durationName D'))
+      | .ok none => .ok (filterRows p.keep t)
+      | .error e => .error e
 
-def mergeImpl := mergeCore (fun mrs => (removeGroups mrs).map (· == 0))
+def mergeImpl := mergeCore mergePlanImpl
 /-- documented meaning: of consecutive rows that carry `event_code` in `col` and agree on the match columns
-only the first is kept -/
-def mergeSpec := mergeCore (mergeKeep none)
+only the first is kept; with set_durations it lasts until the latest end of the rows it absorbs -/
+def mergeSpec := mergeCore mergePlanSpec
+
+/-! ### remap_columns (RemapColumnsOp + KeyMap) -/
+
+/-- `KeyMap.remove_quotes` -/
+def stripQuotes (s : Str) : Str := s.filter fun c => c != '"' && c != '\''
+
+/-- the text of one key value: `row[key_cols].fillna('n/a').astype(str)`, quotes removed -/
+def keyStr : Cell → Str
+  | .nan => naStr
+  | c => stripQuotes (pyStr c)
+
+/-- `pd.DataFrame(map_list)`: a column of numbers with a float among them is float64 -/
+def coerceCol (c : List Val) : List Val :=
+  if c.all Cell.isNumVal && c.any Cell.isFlt then c.map toFloat else c
+
+def columnsOf (rows : List (List Cell)) (w : Nat) : List (List Cell) :=
+  (List.range w).map fun j => rows.map (·.getD j .nan)
+def rowsOf (cols : List (List Cell)) (n : Nat) : List (List Cell) :=
+  (List.range n).map fun i => cols.map (·.getD i .nan)
+
+/-- the rows `KeyMap._update` iterates over, as (key texts, target values):
+`pd.DataFrame(map_list)` per column; `df[targets].values` makes all-numeric targets one dtype;
+`iterrows` makes an all-numeric row one dtype -/
+def mapEntries (nsrc w : Nat) (mapList : List (List Val)) : List (List Str × List Cell) :=
+  let cols := (columnsOf mapList w).map coerceCol
+  let keyCols := cols.take nsrc
+  let tgtCols := cols.drop nsrc
+  let keysNumeric := keyCols.all (·.all Cell.isNumVal)
+  let tgtNumeric := tgtCols.all (·.all Cell.isNumVal)
+  let tgtCols := if tgtNumeric && tgtCols.any (·.any Cell.isFlt) then tgtCols.map (·.map toFloat) else tgtCols
+  let allCols := keyCols ++ tgtCols
+  let allCols := if keysNumeric && tgtNumeric && allCols.any (·.any Cell.isFlt)
+                 then allCols.map (·.map toFloat) else allCols
+  (rowsOf allCols mapList.length).map fun r => ((r.take nsrc).map keyStr, r.drop nsrc)
+
+/-- `KeyMap.map_dict` (key → position) and `KeyMap.col_map` (the target values of the unique keys) -/
+structure KeyMapSt where
+  dict : List (List Str × Nat) := []
+  rows : List (List Cell) := []
+deriving Repr
+
+/-- `KeyMap._handle_update`: the first row with a key is recorded at the next position -/
+def keyMapStep (st : KeyMapSt) (e : List Str × List Cell) : KeyMapSt :=
+  if (st.dict.lookup e.1).isSome then st
+  else { dict := st.dict ++ [(e.1, st.rows.length)], rows := st.rows ++ [e.2] }
+
+def buildKeyMap (entries : List (List Str × List Cell)) : KeyMapSt := entries.foldl keyMapStep {}
+
+
+/-- the entries that define the mapping: the first one of every key -/
+def firstEntries : List (List Str) → List (List Str × List Cell) → List (List Str × List Cell)
+  | _, [] => []
+  | seen, e :: es => if seen.contains e.1 then firstEntries seen es else e :: firstEntries (seen ++ [e.1]) es
+
+def parseDigits (s : Str) : Option Nat :=
+  if s.isEmpty || !s.all Char.isDigit then none
+  else some (s.foldl (fun a c => a * 10 + (c.toNat - '0'.toNat)) 0)
+
+def parseIntLit : Str → Option Int
+  | '-' :: r => (parseDigits r).map fun n => -(n : Int)
+  | '+' :: r => (parseDigits r).map Int.ofNat
+  | r => (parseDigits r).map Int.ofNat
+
+/-- `int(x)` as `Series.astype(int)` applies it to the cells of an integer source -/
+def toIntCell : Cell → Except OpErr Cell
+  | .int n => .ok (.int n)
+  | .flt h => .ok (.int (Int.tdiv h 2))
+  | .nan => .ok .nan
+  | .str s =>
+    match parseIntLit s with
+    | some n => .ok (.int n)
+    | none =>
+      if s.isEmpty || s.any (fun c => c.toNat < 128 && !c.isDigit && c != '+' && c != '-' && c != '_' && !c.isWhitespace)
+      then .error (.raised .ValueError)
+      else .error .unmodelled        -- blanks, underscores, non-ASCII digits: Python's `int` may accept them
+
+/-- one cell of a source column: NaN → 'n/a'; integer sources through `int`; then `astype(str)`, quotes removed -/
+def sourceCell (isInt : Bool) (c : Cell) : Except OpErr Cell :=
+  match c with
+  | .nan => .ok (.str naStr)
+  | c =>
+    if isInt then
+      match toIntCell c with
+      | .ok v => .ok (.str (stripQuotes (pyStr v)))
+      | .error e => .error e
+    else .ok (.str (stripQuotes (pyStr c)))
+
+def mapExcept {α β} (f : α → Except OpErr β) : List α → Except OpErr (List β)
+  | [] => .ok []
+  | x :: xs =>
+    match f x, mapExcept f xs with
+    | .ok y, .ok ys => .ok (y :: ys)
+    | .error e, _ => .error e
+    | _, .error e => .error e
+
+/-- the destination column `j` (`df[col] = remapped_df[col + '_new']` after `.fillna('n/a')`): an int64 column of
+`col_map` becomes float64 when a row without a match brings a NaN into it -/
+def destColumn (uniqueRows : List (List Cell)) (found : List (Option (List Cell))) (j : Nat) : Column :=
+  let promote := uniqueRows.all (fun r => (r.getD j .nan).isInt) && found.any Option.isNone
+  found.map fun m =>
+    match m with
+    | some r =>
+      match r.getD j .nan with
+      | .nan => .str naStr
+      | v => if promote then toFloat v else v
+    | none => .str naStr
+
+def setCols : Table → List (Str × Column) → Table
+  | t, [] => t
+  | t, (n, c) :: rest => setCols (setCol t n c) rest
+
+/-- `col_map = pd.DataFrame(row_list)`: the target columns of the unique rows get their dtype again -/
+def colMapRows (uniqueRows : List (List Cell)) (ntgt : Nat) : List (List Cell) :=
+  rowsOf ((columnsOf uniqueRows ntgt).map coerceCol) uniqueRows.length
+
+def remapCore (lookupIdx : List Str → Option Nat) (uniqueRows : List (List Cell))
+    (src dst : List Str) (ign : Bool) (intSrc : Option (List Str)) (t : Table) : Except OpErr Table :=
+  let colMap := colMapRows uniqueRows dst.length
+  let lookup := fun k => (lookupIdx k).bind (colMap[·]?)
+  let uniqueRows := colMap
+  let ints := intSrc.getD []
+  if src.any (fun s => !(header t).contains s) then .error (.raised .KeyError) else
+  if ints.any (fun s => !(header t).contains s) then .error (.raised .KeyError) else
+  match mapExcept (fun s => mapExcept (sourceCell (ints.contains s)) ((t.lookup s).getD [])) src with
+  | .error e => .error e
+  | .ok srcCols =>
+    let n := (srcCols.headD []).length
+    let found := (rowsOf srcCols n).map fun r => lookup (r.map pyStr)
+    if !ign && found.any Option.isNone then .error (.raised .ValueError) else     -- MapSourceValueMissing
+    let t1 := setCols t (src.zip srcCols)
+    .ok (setCols t1 ((List.range dst.length).map fun j => (dst.getD j [], destColumn uniqueRows found j)))
+
+/-- parameters the modelled pandas fragment covers (the validator guarantees all but the first) -/
+def remapShapeOk (src dst : List Str) (mapList : List (List Val)) (intSrc : Option (List Str)) : Bool :=
+  decide (src ++ dst).Nodup && !src.isEmpty && mapList.all (fun r => r.length == src.length + dst.length)
+    && (intSrc.getD []).all (fun s => src.contains s)
+
+def remapImpl (src dst : List Str) (mapList : List (List Val)) (ign : Bool) (intSrc : Option (List Str))
+    (t : Table) : Except OpErr Table :=
+  if !remapShapeOk src dst mapList intSrc then .error .unmodelled else
+  let km := buildKeyMap (mapEntries src.length (src.length + dst.length) mapList)      -- `__init__`
+  remapCore (fun k => km.dict.lookup k) km.rows src dst ign intSrc t      -- `key_series.map(self.map_dict)`
+
+/-- documented meaning: every row gets, in the destination columns, the values of the FIRST `map_list` entry
+whose key texts equal the row's source texts (NaN reads 'n/a', integer sources read as integers), 'n/a' if there
+is none — which is an error unless `ignore_missing`; the source columns hold their key texts afterwards.
+(`firstEntries` = the defining entries; numbers are merged to one dtype per column as pandas does.) -/
+def remapSpec (src dst : List Str) (mapList : List (List Val)) (ign : Bool) (intSrc : Option (List Str))
+    (t : Table) : Except OpErr Table :=
+  if !remapShapeOk src dst mapList intSrc then .error .unmodelled else
+  let entries := mapEntries src.length (src.length + dst.length) mapList
+  let firsts := firstEntries [] entries
+  remapCore (fun k => firsts.findIdx? (fun e => k == e.1)) (firsts.map (·.2)) src dst ign intSrc t
+
+/-! ### split_rows -/
+
+/-- `_create_onsets` / `_add_durations`: add numbers and numeric columns to a start column -/
+def addSources (t : Table) : Column → List Val → Except OpErr Column
+  | acc, [] => .ok acc
+  | acc, .str name :: rest =>
+    match t.lookup name with
+    | some c =>
+      if !numericCol c then .error .unmodelled
+      else addSources t (List.zipWith numAdd acc (toNumericCol c)) rest
+    | none => .error (.raised .TypeError)
+  | _, .nan :: _ => .error (.raised .TypeError)
+  | acc, v :: rest => addSources t (acc.map (numAdd · v)) rest
+
+def lookupAll (t : Table) : List Str → Except OpErr (List (Str × Column))
+  | [] => .ok []
+  | c :: cs =>
+    match t.lookup c, lookupAll t cs with
+    | some col, .ok r => .ok ((c, col) :: r)
+    | none, _ => .error (.raised .KeyError)
+    | _, .error e => .error e
+
+/-- the frame of new rows of one event as `_split_rows` builds it, column assignment by column assignment,
+before `dropna(subset=['onset'])` -/
+def eventTableImpl (t : Table) (n : Nat) (anchor : Str) (ev : Str × SplitEvent) : Except OpErr Table :=
+  match addSources t (toNumericCol ((t.lookup onsetName).getD [])) ev.2.onsetSrc with
+  | .error e => .error e
+  | .ok onsets =>
+    let t0 : Table := (header t).map fun h => (h, List.replicate n Cell.nan)     -- DataFrame([], columns=df.columns)
+    let t1 := setCol t0 onsetName onsets
+    let t2 := setCol t1 anchor (List.replicate n (.str ev.1))
+    match addSources t (List.replicate n (.int 0)) ev.2.duration with
+    | .error e => .error e
+    | .ok durs =>
+      let t3 := setCol t2 durationName durs
+      match lookupAll t (ev.2.copy.getD []) with
+      | .error e => .error e
+      | .ok copies => .ok (setCols t3 copies)
+
+/-- the same frame, column by column: a copied column is the parent's; else `duration` is the sum of the
+duration items, the anchor column is the event name, `onset` the parent's onset plus the onset items; every other
+column is empty -/
+def eventTableSpec (t : Table) (n : Nat) (anchor : Str) (ev : Str × SplitEvent) : Except OpErr Table :=
+  match addSources t (toNumericCol ((t.lookup onsetName).getD [])) ev.2.onsetSrc with
+  | .error e => .error e
+  | .ok onsets =>
+    match addSources t (List.replicate n (.int 0)) ev.2.duration with
+    | .error e => .error e
+    | .ok durs =>
+      match lookupAll t (ev.2.copy.getD []) with
+      | .error e => .error e
+      | .ok copies =>
+        let hdr := if anchor ∈ header t then header t else header t ++ [anchor]
+        .ok (hdr.map fun h =>
+          (h, match (copies.reverse).lookup h with
+              | some c => c
+              | none =>
+                if h = durationName then durs
+                else if h = anchor then List.replicate n (.str ev.1)
+                else if h = onsetName then onsets
+                else List.replicate n Cell.nan))
+
+def eventTables (mk : Str × SplitEvent → Except OpErr Table) : List (Str × SplitEvent) → Except OpErr (List Table)
+  | [] => .ok []
+  | e :: es =>
+    match mk e with
+    | .error x => .error x
+    | .ok te =>
+      match eventTables mk es with
+      | .ok r => .ok (te :: r)
+      | .error x => .error x
+
+/-- `sort_values('onset')` key: NaN last -/
+def keyLe : Option Int → Option Int → Bool
+  | some a, some b => a ≤ b
+  | some _, none => true
+  | none, some _ => false
+  | none, none => true
+
+def insertRow (k : Option Int) (r : List Cell) : List (Option Int × List Cell) → List (Option Int × List Cell)
+  | [] => [(k, r)]
+  | p :: rest => if keyLe p.1 k then p :: insertRow k r rest else (k, r) :: p :: rest
+
+/-- a STABLE sort (pandas' default quicksort is not: rows with equal onsets may come in another order there;
+the correspondence compares such rows as a set) -/
+def stableSort (rows : List (Option Int × List Cell)) : List (List Cell) :=
+  (rows.foldl (fun acc p => insertRow p.1 p.2 acc) []).map (·.2)
+
+def colD (t : Table) (name : Str) : Column := (t.lookup name).getD []
+
+/-- the dtype pandas holds a column with, as far as it can be read off the cells (an object column that holds only
+numbers is taken for a numeric one: such columns do not arise in lists of at most four operations) -/
+inductive DT | int | float | object
+deriving Repr, DecidableEq
+
+def cellsDtype (c : Column) : DT := if c.all Cell.isInt then .int else if c.all Cell.isFlt then .float else .object
+/-- dtype of a column computed by `_create_onsets` / `_add_durations` (NaN lives in float64 there) -/
+def computedDtype (c : Column) : DT := if c.all Cell.isInt then .int else .float
+
+def splitCore (mkEvent : Table → Nat → Str → Str × SplitEvent → Except OpErr Table)
+    (anchor : Str) (events : List (Str × SplitEvent)) (removeParent : Bool) (t : Table) : Except OpErr Table :=
+  if !(header t).contains onsetName then .error (.raised .ValueError) else
+  if !(header t).contains durationName then .error (.raised .ValueError) else
+  let O := colD t onsetName
+  let D := colD t durationName
+  if anchor = onsetName || !numericCol O || !numericCol D then .error .unmodelled else
+  let n := O.length
+  let dfNew := if anchor ∈ header t then t else t ++ [(anchor, List.replicate n Cell.nan)]
+  match eventTables (mkEvent t n anchor) events with
+  | .error e => .error e
+  | .ok evs =>
+    let parts := (if removeParent then [] else [dfNew])
+      ++ evs.map fun e => filterRows ((colD e onsetName).map (· != Cell.nan)) e        -- dropna(subset=['onset'])
+    -- pd.concat: a time column becomes float64 when every frame holds it with a numeric dtype and one of them
+    -- (also an emptied one) as float64; a frame holding it as object (NaN or mixed cells) keeps every value as it is
+    let promoted := fun (h : Str) =>
+      let dts := (if removeParent then [] else [cellsDtype (colD dfNew h)])
+        ++ (events.zip evs).map fun ee =>
+             if (ee.1.2.copy.getD []).contains h then cellsDtype (colD ee.2 h) else computedDtype (colD ee.2 h)
+      !dts.contains DT.object && dts.contains DT.float
+    let hdr := header dfNew
+    let cols := hdr.map fun h =>
+      let c := parts.flatMap fun p => colD p h
+      let c := if (h = onsetName || h = durationName) && promoted h then c.map toFloat else c
+      -- `df_ret["onset"].apply(pd.to_numeric)`: the values decide again
+      if h = onsetName then toNumericCol c else c
+    let m := (cols.headD []).length
+    let rows := rowsOf cols m
+    let keyed := rows.map fun r => (((hdr.zip r).lookup onsetName).bind Cell.tw, r)
+    let sorted := stableSort keyed
+    .ok (hdr.zip (columnsOf sorted hdr.length))
+
+def splitImpl := splitCore eventTableImpl
+/-- documented meaning: for every row and every event of `new_events` one new row (dropped if its onset is not a
+number), then — unless `remove_parent_row` — the original rows, all ordered by onset -/
+def splitSpec := splitCore eventTableSpec
 
 /-! ### dispatch -/
 
@@ -280,7 +714,9 @@ def opSpec : Op → Table → Except OpErr Table
   | .renameColumns m i, t => renameColumnsSpec m i t
   | .reorderColumns o i k, t => reorderSpec o i k t
   | .factorColumn c vs ns, t => factorSpec c vs ns t
-  | .mergeConsecutive c code m i, t => mergeSpec c code m i t
+  | .mergeConsecutive c code m sd i, t => mergeSpec c code m sd i t
+  | .remapColumns s d ml i is, t => remapSpec s d ml i is t
+  | .splitRows a evs rp, t => splitSpec a evs rp t
 
 /-- `operation.do_op(dispatcher, df, name)`: the operation (its parameters) after the call, and the result -/
 def opImpl : Op → Table → Op × Except OpErr Table
@@ -289,7 +725,9 @@ def opImpl : Op → Table → Op × Except OpErr Table
   | .renameColumns m i, t => (.renameColumns m i, renameColumnsImpl m i t)
   | .reorderColumns o i k, t => let r := reorderImpl o i k t; (.reorderColumns r.1 i k, r.2)
   | .factorColumn c vs ns, t => (.factorColumn c vs ns, factorImpl c vs ns t)
-  | .mergeConsecutive c code m i, t => (.mergeConsecutive c code m i, mergeImpl c code m i t)
+  | .mergeConsecutive c code m sd i, t => (.mergeConsecutive c code m sd i, mergeImpl c code m sd i t)
+  | .remapColumns s d ml i is, t => (.remapColumns s d ml i is, remapImpl s d ml i is t)
+  | .splitRows a evs rp, t => (.splitRows a evs rp, splitImpl a evs rp t)
 
 /-- the unrepaired code (reorder_columns aliasing) -/
 def opImplOld : Op → Table → Op × Except OpErr Table
@@ -325,20 +763,52 @@ def runManyWith (step : Op → Table → Op × Except OpErr Table) :
 
 def runMany := runManyWith opImpl
 
-/-- the columns an operation names -/
+def sourceNames (vs : List Val) : List Str := vs.filterMap fun v => match v with | .str s => some s | _ => none
+
+/-- the columns an operation names as existing -/
 def namedCols : Op → List Str
   | .removeRows c _ => [c]
   | .removeColumns cs _ => cs
   | .renameColumns m _ => m.map (·.1)
   | .reorderColumns o _ _ => o
   | .factorColumn c _ _ => [c]
-  | .mergeConsecutive c _ m _ => c :: m.getD []
+  | .mergeConsecutive c _ m sd _ => c :: m.getD [] ++ (if sd then [onsetName, durationName] else [])
+  | .remapColumns s _ _ _ _ => s
+  | .splitRows _ evs _ =>
+    onsetName :: durationName ::
+      evs.flatMap fun e => sourceNames e.2.onsetSrc ++ sourceNames e.2.duration ++ e.2.copy.getD []
 
-/-- every operation, when it is reached, finds the columns it names (and unique labels) -/
+/-- "values of the expected kind", per operation:
+* merge_consecutive with set_durations: `onset` and `duration` hold numbers (or NaN), no text;
+* split_rows: the same for `onset`, `duration` and every column named in an onset_source / duration list, and
+  the anchor column is not `onset`;
+* remap_columns: the parameters have the shape the validator checks plus distinct column names; every cell of
+  an integer source is an integer, a float (truncated), NaN, or text that is a plain integer literal; and, unless
+  `ignore_missing`, every row's key is in `map_list` (else the documented ValueError) — the latter two are
+  exactly "the operation's own conversions succeed", stated through `remapImpl`'s error;
+* the other operations: nothing. -/
+def kindOk : Op → Table → Bool
+  | .mergeConsecutive _ _ _ sd _, t => !sd || (numericCol (colD t onsetName) && numericCol (colD t durationName))
+  | .splitRows a evs _, t =>
+    a != onsetName && numericCol (colD t onsetName) && numericCol (colD t durationName)
+      && evs.all fun e =>
+           (sourceNames e.2.onsetSrc ++ sourceNames e.2.duration).all (fun c => numericCol (colD t c))
+           && (e.2.onsetSrc ++ e.2.duration).all (· != Cell.nan)        -- items are texts or numbers (the parser's)
+  | .remapColumns s d ml i is, t =>
+    remapShapeOk s d ml is &&
+    (match mapExcept (fun c => mapExcept (sourceCell ((is.getD []).contains c)) (colD t c)) s with
+     | .error _ => false
+     | .ok srcCols =>
+       i || ((rowsOf srcCols (srcCols.headD []).length).all fun r =>
+              ((mapEntries s.length (s.length + d.length) ml).any (fun e => r.map pyStr == e.1))))
+  | _, _ => true
+
+/-- every operation, when it is reached, finds the columns it names (unique labels) holding values of the
+expected kind -/
 def hasColumns : List Op → Table → Bool
   | [], _ => true
   | o :: os, t =>
-    decide (header t).Nodup && (namedCols o).all (fun n => (header t).contains n) &&
+    decide (header t).Nodup && (namedCols o).all (fun n => (header t).contains n) && kindOk o (prep t) &&
     match (opImpl o (prep t)).2 with
     | .ok t1 => hasColumns os (post t1)
     | .error _ => true
@@ -349,7 +819,7 @@ inductive JVal
   | null
   | bool (b : Bool)
   | int (n : Int)
-  | flt (repr : Str)
+  | flt (twice : Int)
   | str (s : Str)
   | arr (xs : List JVal)
   | obj (kvs : List (Str × JVal))
@@ -361,8 +831,8 @@ def jeq : JVal → JVal → Bool
   | .null, .null => true
   | .bool a, .bool b => a == b
   | .int a, .int b => a == b
-  | .int a, .flt r => intRepr a ++ ".0".toList == r
-  | .flt r, .int b => r == intRepr b ++ ".0".toList
+  | .int a, .flt h => 2 * a == h
+  | .flt h, .int b => h == 2 * b
   | .flt a, .flt b => a == b
   | .str a, .str b => a == b
   | .arr xs, .arr ys => jeqList xs ys
@@ -470,7 +940,7 @@ def schemaErrors (raws : List JVal) : List Err :=
 def JVal.asStr : JVal → Option Str | .str s => some s | _ => none
 def JVal.asBool : JVal → Option Bool | .bool b => some b | _ => none
 def JVal.asVal : JVal → Option Val
-  | .str s => some (.str s) | .int n => some (.int n) | .flt r => some (.flt r) | _ => none
+  | .str s => some (.str s) | .int n => some (.int n) | .flt h => some (.flt h) | _ => none
 def JVal.asStrList : JVal → Option (List Str) | .arr xs => xs.mapM JVal.asStr | _ => none
 def JVal.asValList : JVal → Option (List Val) | .arr xs => xs.mapM JVal.asVal | _ => none
 def JVal.asStrDict : JVal → Option (List (Str × Str))
@@ -482,14 +952,18 @@ def optStrList (kvs : List (Str × JVal)) (key : Str) : Option (Option (List Str
   | none => some none
   | some v => v.asStrList.map some
 
-/-- a parsed operation: modelled (`Op`), or one whose transformation is not modelled (remap_columns, split_rows,
-merge_consecutive with `set_durations`) and is only checked by the direct oracle -/
-inductive POp
-  | modelled (op : Op)
-  | other (name : Str) (params : List (Str × JVal))
-deriving Repr
+def parseEvent (kv : Str × JVal) : Option (Str × SplitEvent) :=
+  match kv.2 with
+  | .obj fs => do
+    let os ← (← fs.lookup "onset_source".toList).asValList
+    let ds ← (← fs.lookup "duration".toList).asValList
+    let cp ← optStrList fs "copy_columns".toList
+    pure (kv.1, { onsetSrc := os, duration := ds, copy := cp })
+  | _ => none
 
-def parseOp (j : JVal) : Option POp :=
+/-- the operation object built from one entry of the list; `none` for what the validator rejects or for an
+operation outside the eight of this property -/
+def parseOp (j : JVal) : Option Op :=
   match j with
   | .obj okvs =>
     match okvs.lookup "operation".toList, okvs.lookup "parameters".toList with
@@ -498,33 +972,48 @@ def parseOp (j : JVal) : Option POp :=
       if name = "remove_rows".toList then do
         let c ← (← get "column_name").asStr
         let vs ← (← get "remove_values").asValList
-        pure (.modelled (.removeRows c vs))
+        pure (.removeRows c vs)
       else if name = "remove_columns".toList then do
         let cs ← (← get "column_names").asStrList
         let i ← (← get "ignore_missing").asBool
-        pure (.modelled (.removeColumns cs i))
+        pure (.removeColumns cs i)
       else if name = "rename_columns".toList then do
         let m ← (← get "column_mapping").asStrDict
         let i ← (← get "ignore_missing").asBool
-        pure (.modelled (.renameColumns m i))
+        pure (.renameColumns m i)
       else if name = "reorder_columns".toList then do
         let o ← (← get "column_order").asStrList
         let i ← (← get "ignore_missing").asBool
         let k ← (← get "keep_others").asBool
-        pure (.modelled (.reorderColumns o i k))
+        pure (.reorderColumns o i k)
       else if name = "factor_column".toList then do
         let c ← (← get "column_name").asStr
         let vs ← optStrList kvs "factor_values".toList
         let ns ← optStrList kvs "factor_names".toList
-        pure (.modelled (.factorColumn c vs ns))
+        pure (.factorColumn c vs ns)
       else if name = "merge_consecutive".toList then do
         let c ← (← get "column_name").asStr
         let code ← (← get "event_code").asVal
         let sd ← (← get "set_durations").asBool
         let i ← (← get "ignore_missing").asBool
         let m ← optStrList kvs "match_columns".toList
-        if sd then pure (.other name kvs) else pure (.modelled (.mergeConsecutive c code m i))
-      else if name = "remap_columns".toList ∨ name = "split_rows".toList then some (.other name kvs)
+        pure (.mergeConsecutive c code m sd i)
+      else if name = "remap_columns".toList then do
+        let s ← (← get "source_columns").asStrList
+        let d ← (← get "destination_columns").asStrList
+        let ml ← match (← get "map_list") with
+          | .arr rows => rows.mapM JVal.asValList
+          | _ => none
+        let i ← (← get "ignore_missing").asBool
+        let is ← optStrList kvs "integer_sources".toList
+        pure (.remapColumns s d ml i is)
+      else if name = "split_rows".toList then do
+        let a ← (← get "anchor_column").asStr
+        let evs ← match (← get "new_events") with
+          | .obj es => es.mapM parseEvent
+          | _ => none
+        let rp ← (← get "remove_parent_row").asBool
+        pure (.splitRows a evs rp)
       else none
     | _, _ => none
   | _ => none
@@ -543,46 +1032,30 @@ def mergeInputErrs (col : Str) (matchCols : Option (List Str)) : List ErrKind :=
   let m := matchCols.getD []
   if !m.isEmpty && m.contains col then [.inputData] else []
 
-def arrLen : JVal → Nat | .arr xs => xs.length | _ => 0
-
-/-- RemapColumnsOp.validate_input_data -/
-def remapInputErrs (kvs : List (Str × JVal)) : List ErrKind :=
-  let src := ((kvs.lookup "source_columns".toList).bind JVal.asStrList).getD []
-  let dst := ((kvs.lookup "destination_columns".toList).bind JVal.asStrList).getD []
-  let ints := ((kvs.lookup "integer_sources".toList).bind JVal.asStrList).getD []
-  let rows := match kvs.lookup "map_list".toList with | some (.arr xs) => xs | _ => []
-  if rows.any (fun r => arrLen r != src.length + dst.length) then [.inputData]
-  else if src.any (fun c => dst.contains c) then [.inputData]     -- fixes/C17_remap_disjoint_validation.diff
-  else if ints.any (fun i => !src.contains i) then [.inputData]
+/-- RemapColumnsOp.validate_input_data (with the disjointness check of the repair) -/
+def remapInputErrs (src dst : List Str) (mapList : List (List Val)) (intSrc : Option (List Str)) : List ErrKind :=
+  if mapList.any (fun r => r.length != src.length + dst.length) then [.inputData]
+  else if src.any (fun c => dst.contains c) then [.inputData]
+  else if (intSrc.getD []).any (fun i => !src.contains i) then [.inputData]
   else []
 
-def inputDataErrs : POp → List ErrKind
-  | .modelled (.factorColumn _ vs ns) => factorInputErrs vs ns
-  | .modelled (.mergeConsecutive c _ m _) => mergeInputErrs c m
-  | .modelled _ => []
-  | .other name kvs =>
-    if name = "remap_columns".toList then remapInputErrs kvs
-    else if name = "merge_consecutive".toList then
-      mergeInputErrs (((kvs.lookup "column_name".toList).bind JVal.asStr).getD [])
-        ((kvs.lookup "match_columns".toList).bind JVal.asStrList)
-    else []
+def inputDataErrs : Op → List ErrKind
+  | .factorColumn _ vs ns => factorInputErrs vs ns
+  | .mergeConsecutive c _ m _ _ => mergeInputErrs c m
+  | .remapColumns s d ml _ is => remapInputErrs s d ml is
+  | _ => []
+
+/-- the operations of a raw list (`Dispatcher.parse_operations`) -/
+def parseOps (raws : List JVal) : Option (List Op) := raws.mapM parseOp
 
 /-- `RemodelerValidator.validate`: schema errors first (then stop), else every operation's
 `validate_input_data`.  Only emptiness is compared with the implementation. -/
 def validateParams (raws : List JVal) : List Err :=
   let e := schemaErrors raws
   if !e.isEmpty then e else
-  match raws.mapM parseOp with
+  match parseOps raws with
   | none => [⟨0, .notModelled⟩]
-  | some pops => errsFrom inputDataErrs 0 pops
-
-def toOps : List POp → Option (List Op)
-  | [] => some []
-  | .modelled o :: ps => (toOps ps).map (o :: ·)
-  | .other _ _ :: _ => none
-
-/-- the modelled operations of a raw list, if all of it is modelled -/
-def parseOps (raws : List JVal) : Option (List Op) := (raws.mapM parseOp).bind toOps
+  | some ops => errsFrom inputDataErrs 0 ops
 
 /-! ### the command-line entry point (`run_remodel.parse_arguments` + `main`) -/
 
